@@ -943,6 +943,9 @@ impl<'s, P: Pay + Send + Sync> W<'s, P> {
         if roll < 86 {
             return self.op_unique(i, a, kind);
         }
+        if roll >= 90 && roll < 92 {
+            return self.op_clone_from(i, a, kind);
+        }
         if roll < 92 {
             let j = self.rng.below(self.slots.len());
             self.slots.swap(i, j);
@@ -951,6 +954,68 @@ impl<'s, P: Pay + Send + Sync> W<'s, P> {
             return self.verify("move");
         }
         self.op_compare(i)
+    }
+
+    /// `handle.clone_from(&other)` between two handles of the same kind: the old allocation loses one owner
+    /// (and is destroyed if that was the last), the source's allocation gains one.
+    fn op_clone_from(&mut self, i: usize, a_old: usize, kind: &'static str) -> R {
+        set_op("C01,C04|clone_from");
+        let used = self.used_slots();
+        let j = *self.rng.pick(&used);
+        if j == i {
+            return self.verify("noop");
+        }
+        let mut slot = self.slots[i].take().unwrap();
+        let a_new = self.slots[j].as_ref().unwrap().a;
+        let done = {
+            let src = &self.slots[j].as_ref().unwrap().h;
+            shadow::tracked(|| match (&mut slot.h, src) {
+                (H::Arc(x), H::Arc(y)) => {
+                    x.clone_from(y);
+                    true
+                }
+                (H::Off(x), H::Off(y)) => {
+                    x.clone_from(y);
+                    true
+                }
+                (H::U1(x), H::U1(y)) => {
+                    x.clone_from(y);
+                    true
+                }
+                (H::U2(x), H::U2(y)) => {
+                    x.clone_from(y);
+                    true
+                }
+                (H::UU(x, vx), H::UU(y, vy)) => {
+                    x.clone_from(y);
+                    *vx = *vy;
+                    true
+                }
+                (H::Dyn(x), H::Dyn(y)) => {
+                    x.clone_from(y);
+                    true
+                }
+                (H::Hs(x), H::Hs(y)) => {
+                    x.clone_from(y);
+                    true
+                }
+                _ => false,
+            })
+        };
+        if !done {
+            self.slots[i] = Some(slot);
+            return self.verify("noop");
+        }
+        slot.a = a_new;
+        self.slots[i] = Some(slot);
+        self.log(format!("s{}.clone_from(&s{}) ({})", i, j, kind));
+        self.st.counts.bump(&format!("edge.clone:clone_from:{}", kind));
+        self.sig(a_new, &format!("clone_from:{}", kind));
+        if a_old != a_new && self.owners(a_old) == 0 {
+            self.expect_dead(a_old, kind)?;
+        }
+        self.last_a = a_new;
+        self.verify("clone_from")
     }
 
     fn op_clone(&mut self, i: usize, s: usize, a: usize, kind: &'static str) -> R {
